@@ -33,9 +33,19 @@ PY = {"==": lambda a, b: a == b, "!=": lambda a, b: a != b,
 
 
 def conv_model(aff, rows, u, v, x):
-    """expected amount of x u in v; None if no applicable row"""
+    """expected amount of x u in v; None if no applicable row.  rows may be
+    a set of tabulated pairs (consistent with the affine model aff) or a
+    dict {(u, v): (factor, offset)} with the literal rows."""
     if u == v:
         return x
+    if isinstance(rows, dict):
+        if (u, v) in rows:
+            f, o = rows[(u, v)]
+            return x * f + o
+        if (v, u) in rows:
+            f, o = rows[(v, u)]
+            return (x - o) / f
+        return None
     au, bu = aff[u]
     av, bv = aff[v]
     if (u, v) in rows or (v, u) in rows:
@@ -43,7 +53,8 @@ def conv_model(aff, rows, u, v, x):
     return None
 
 
-def affine_sub(chk, rng, aff, rows, wid, tname, fixed=None, extra=None):
+def affine_sub(chk, rng, aff, rows, wid, tname, fixed=None, extra=None,
+               consistent=True):
     units = list(aff)
     if fixed:
         u, x, v, want_fixed = fixed
@@ -117,12 +128,16 @@ def affine_sub(chk, rng, aff, rows, wid, tname, fixed=None, extra=None):
                         bad.append("fixed point: %s %s must be %s %s, got %s"
                                    % (xs, u, want_fixed, v, val(r)))
                 b = obs.get("back", {})
-                if b.get("k") != "Q" or val(b) != xs or b["u"] != u:
+                if consistent and (b.get("k") != "Q" or val(b) != xs or
+                                   b["u"] != u):
                     bad.append("converting back gives %s" % brief(b))
-                if obs.get("eqr", {}).get("v") is not True:
+                if consistent and obs.get("eqr", {}).get("v") is not True:
                     bad.append("converted quantity != original")
-            if conv_model(aff, rows, u, t, xs) is not None and \
-                    conv_model(aff, rows, t, v, F(0)) is not None:
+                if not consistent:
+                    chk.count("conversions with both directions tabulated "
+                              "inconsistently (forward row must win)")
+            if consistent and conv_model(aff, rows, u, t, xs) is not None \
+                    and conv_model(aff, rows, t, v, F(0)) is not None:
                 via = obs.get("via", {})
                 chk.count("triples")
                 if via.get("k") != "Q" or val(via) != want or via["u"] != v:
@@ -133,7 +148,7 @@ def affine_sub(chk, rng, aff, rows, wid, tname, fixed=None, extra=None):
             au, bu = aff[u]
             lhs, rhs = au * xs + bu, av * y + bv
             o = obs.get("o", {})
-            if o.get("k") == "Q":
+            if o.get("k") == "Q" and consistent:
                 rhs = av * val(o) + bv
                 for op in OPS:
                     c = obs.get(op, {})
@@ -188,6 +203,15 @@ def synthetic_world(chk, rng, wi):
             elif r < 0.72:
                 del rows[(u, v)]
                 del rows[(v, u)]
+    consistent = rng.random() < 0.75
+    if not consistent:
+        # a user table whose two directions disagree: each tabulated
+        # direction must be applied as written
+        for key in list(rows):
+            if (key[1], key[0]) in rows and rng.random() < 0.7:
+                f, o = rows[key]
+                rows[key] = (f * rng.choice([2, F(1, 2), 1]),
+                             o + rng.choice([0, 1, -3]))
     form = rng.choice(["mapping", "list"])
     if form == "mapping":
         table = ["dict", [[["t", [U(u), U(v)]], ["t", [num(f), num(o)]]]
@@ -203,9 +227,10 @@ def synthetic_world(chk, rng, wi):
                lambda obs: chk.count("table form|" + form))
     subs = [pre_sub]
     for _ in range(20):
-        subs.append(affine_sub(chk, rng, aff, rows, wid, tname,
+        subs.append(affine_sub(chk, rng, aff, dict(rows), wid, tname,
                                extra=dict(form=form,
-                                          rows=[list(k) for k in rows])))
+                                          rows=[list(k) for k in rows]),
+                               consistent=consistent))
     return world_program(chk, plan, subs, wid)
 
 
@@ -214,6 +239,8 @@ def run(chk, R, tier, seed):
     for c in ("reverse-lookup conversions", "forward conversions",
               "missing pairs", "table form|mapping", "table form|list",
               "fixed points", "triples", "comparisons across units",
+              "conversions with both directions tabulated inconsistently "
+              "(forward row must win)",
               "worlds"):
         chk.require(c)
     wrap = lambda jd: (lambda obs, rec, case: jd(obs))      # noqa: E731
